@@ -28,12 +28,87 @@ def indexByte : List Char → Char → Int
       let r := indexByte cs x
       if r < 0 then -1 else r + 1
 
-def len {α : Type} (l : List α) : Int := l.length
+@[reducible] def len {α : Type} (l : List α) : Int := l.length
 /-- `t[i:]` (panics in Go when out of range; callers stay in range) -/
 def sliceFrom {α : Type} (l : List α) (i : Int) : List α := l.drop i.toNat
 /-- `t[:j]` -/
 def sliceTo {α : Type} (l : List α) (j : Int) : List α := l.take j.toNat
 /-- `t[i:j]` -/
 def slice {α : Type} (l : List α) (i j : Int) : List α := (l.take j.toNat).drop i.toNat
+
+/-! ### primitives of the imperative subset (Wasp/Generated/*Lit.lean)
+
+The literal translations return `Option`: `none` = the Go code panics with an index or
+slice bound out of range. Every `a[i]` / `s[a:b]` is guarded by one of the `…Ok`/`inRange`
+tests below before its (total) value function is used. -/
+
+/-- the comparison operators as Bool-valued functions -/
+def lt (a b : Int) : Bool := decide (a < b)
+def le (a b : Int) : Bool := decide (a ≤ b)
+def gt (a b : Int) : Bool := decide (a > b)
+def ge (a b : Int) : Bool := decide (a ≥ b)
+def eq {α : Type} [DecidableEq α] (a b : α) : Bool := decide (a = b)
+def ne {α : Type} [DecidableEq α] (a b : α) : Bool := decide (a ≠ b)
+
+/-- `a[i]` does not panic -/
+def inRange {α : Type} (l : List α) (i : Int) : Bool := decide (0 ≤ i) && decide (i < len l)
+/-- `a[i]` (guarded by `inRange`) -/
+def index {α : Type} [Inhabited α] (l : List α) (i : Int) : α := l[i.toNat]?.getD default
+/-- `a[i] = v` (guarded by `inRange`) as a functional update -/
+def set {α : Type} (l : List α) (i : Int) (v : α) : List α := l.set i.toNat v
+/-- `s[i:]` does not panic -/
+def sliceFromOk {α : Type} (l : List α) (i : Int) : Bool := decide (0 ≤ i) && decide (i ≤ len l)
+/-- `s[:j]` does not panic; Go allows `j ≤ cap s`, the translation deliberately demands `j ≤ len s`:
+    code that relies on spare capacity is not accepted silently -/
+def sliceToOk {α : Type} (l : List α) (j : Int) : Bool := decide (0 ≤ j) && decide (j ≤ len l)
+/-- `s[i:j]` does not panic (same restriction to `len`) -/
+def sliceOk {α : Type} (l : List α) (i j : Int) : Bool :=
+  decide (0 ≤ i) && decide (i ≤ j) && decide (j ≤ len l)
+
+/-- the loop of sort.Search:  for i < j { h := int(uint(i+j) >> 1); if !f(h) { i = h + 1 } else { j = h } } -/
+def searchLoop (f : Int → Bool) : Nat → Int → Int → Int
+  | 0, i, _ => i
+  | fuel + 1, i, j =>
+    if i < j then
+      let h := (i + j) / 2
+      if !f h then searchLoop f fuel (h + 1) j else searchLoop f fuel i h
+    else i
+
+/-- sort.Search(n, f): literally Go's binary search (i, j := 0, n; the loop; return i).
+    The interval halves on every turn, so `n + 1` turns of fuel are never exhausted. -/
+def search (n : Int) (f : Int → Bool) : Int := searchLoop f (n.toNat + 1) 0 n
+
+/-- `p i` for every `i` in `[0, n)`: the guard of a closure handed to sort.Search -/
+def forallBelow (n : Int) (p : Int → Bool) : Bool := (List.range n.toNat).all (fun k => p (k : Int))
+
+/-- `interface{}` values on which the translated code only uses `==`/`!=`. The only dynamic type
+    that reaches these places is `string` (the ack queue's hash keys), whose comparison never panics. -/
+abbrev Any := String
+
+/-- insertion into a list sorted by `less`: `x` goes behind the leading elements that are less than it -/
+def insertBy {α : Type} (less : α → α → Bool) (x : α) : List α → List α
+  | [] => [x]
+  | y :: ys => if less y x then y :: insertBy less x ys else x :: y :: ys
+
+/-- sort.SliceStable(s, less) as a stable insertion sort (folding from the right: an element goes
+    in front of the elements that are not less than it, so equal elements keep their order).
+    For a strict weak order `less` every stable sort yields this list. -/
+def sortStableBy {α : Type} (less : α → α → Bool) (l : List α) : List α := l.foldr (insertBy less) []
+
+/-- outcome of one turn of a `for` loop: go on with the new state, the condition was false,
+    or the body executed `return r` -/
+inductive Ctl (σ ρ : Type) where
+  | next (s : σ)
+  | done (s : σ)
+  | ret (r : ρ)
+
+/-- `for ; cond; post { body }`: at most `fuel` turns of `turn` (condition, body, post);
+    `none` = a panic in a turn, or the bound `fuel` exceeded -/
+def loop {σ ρ : Type} : Nat → σ → (σ → Option (Ctl σ ρ)) → Option (Ctl σ ρ)
+  | 0, _, _ => none
+  | fuel + 1, s, turn =>
+    match turn s with
+    | some (Ctl.next s') => loop fuel s' turn
+    | r => r
 
 end Go
